@@ -118,14 +118,19 @@ class Fixture:
             sched.reset_locks()
             bodies = []
             shared = copy.deepcopy(self.A)  # every replay starts from the pristine post-construction object (in-memory state included)
+            objs = []
             for w in workers:
                 A = shared if mode == "thread" else copy.deepcopy(self.A)
+                objs.append(A)
                 if w == "stat":
                     bodies.append(lambda A=A: _stat_body(A))
                 else:
                     p, r = _data(w)
                     bodies.append(lambda A=A, p=p, r=r, n=_name(w): A.evaluate(p.copy(), r.copy(), n))
-            return bodies, list(sched.ALL_LOCKS), None
+            # the in-memory state of the aggregator object(s) is part of the explored state: without it, states that differ only in
+            # shared memory would be merged and interleavings behind them pruned
+            uniq = objs[:1] if mode == "thread" else objs
+            return bodies, list(sched.ALL_LOCKS), {"mem_digest": lambda: hash(tuple(sched.digest(o) for o in uniq))}
 
         return mk
 
@@ -238,6 +243,7 @@ def _explore(acc, case, fx, workers, mode, init, judge):
         for _ in range(2):
             bodies, locks, _c = fx.make(workers, mode)()
             ex = sched.Execution(bodies, locks)
+            ex.mem_digest = _c["mem_digest"]
             ex.run(list(case["schedule"]), stop=False)
             keys.append((vfs.fs.snapshot(), tuple(ex.choices)))
         if keys[0] != keys[1]:
